@@ -83,6 +83,8 @@ def run(report, tier, seed):
         _emission(report, sc, ybin, lean, rng, quick, seed)
         _float_division(report, sc, ybin)
         _narrow_operands(report, sc, ybin)
+        _conversions(report, sc, ybin)
+        _directed_semantics(report, sc, ybin)
         _wide_operands(report, sc, ybin, lean, seed)
         lean.close()
 
@@ -419,6 +421,173 @@ def _float_division(report, sc, ybin):
             if got != want:
                 report.violation(f"emission:value-differs:{tgt}", {"source": e, "env": {"f": 1.0, "g": 3.0}, "reference": want, "got": got},
                                  f"generated {tgt} computes a different floating-point value")
+
+
+def _conversions(report, sc, ybin):
+    """explicit conversions (`x as T`) inside arithmetic: a conversion of a floating-point value to an integer type truncates (toward zero), whatever
+    the value is used for afterwards (multiplied by a float, converted back, raised to a power); reference = the documented meaning, evaluated
+    exactly on dyadic values; every target must yield it"""
+    import math
+    env = {"f": 2.75, "g": -7.5, "h": 100.5, "i": 5, "k": -3}
+    INTS = {"int8", "int16", "int32", "int64", "uint8", "uint16", "uint32", "uint64"}
+
+    def src(e):
+        k = e[0]
+        if k == "var":
+            return e[1]
+        if k == "lit":
+            return repr(e[1])
+        if k == "as":
+            return f"({src(e[1])} as {e[2]})"
+        return f"({src(e[2])} {e[1]} {src(e[3])})"
+
+    def ev(e):
+        """(value, is_float)"""
+        k = e[0]
+        if k == "var":
+            return env[e[1]], isinstance(env[e[1]], float)
+        if k == "lit":
+            return e[1], isinstance(e[1], float)
+        if k == "as":
+            v, _ = ev(e[1])
+            if e[2] in INTS:
+                return math.trunc(v), False
+            return float(v), True
+        (a, fa), (b, fb) = ev(e[2]), ev(e[3])
+        op = e[1]
+        if op == "**":
+            return float(a) ** float(b), True
+        if fa or fb:
+            a, b = float(a), float(b)
+            return {"+": a + b, "-": a - b, "*": a * b, "/": a / b}[op], True
+        if op == "/":
+            return abs(a) // abs(b) * (1 if (a < 0) == (b < 0) else -1), False
+        return {"+": a + b, "-": a - b, "*": a * b}[op], False
+    V = lambda n: ("var", n)
+    AS = lambda e, t: ("as", e, t)
+    B = lambda op, l, r: ("bin", op, l, r)
+    L = lambda x: ("lit", x)
+    exprs = {}
+    n = 0
+    # (no 64-bit targets here: yardl defines no operator between int64 / uint64 and a floating-point operand)
+    for var, types in (("f", ["int32", "int8", "uint8", "uint16"]), ("g", ["int32", "int16", "int8"]), ("h", ["int32", "uint8", "int16"])):
+        for t in types:
+            c = AS(V(var), t)
+            for consumer in (lambda x: B("*", x, L(0.5)), lambda x: B("+", x, L(0.25)), lambda x: B("-", V(var), x), lambda x: B("/", x, L(2.0)), lambda x: B("**", x, L(2.0)),
+                             lambda x: AS(x, "float64"), lambda x: AS(x, "float32"), lambda x: B("+", x, L(1)), lambda x: B("*", x, V("i")), lambda x: B("-", x, V("f")),
+                             lambda x: AS(AS(x, "float64"), "int32"), lambda x: B("*", AS(x, "float64"), L(0.5)), lambda x: x):
+                n += 1
+                exprs[f"c{n}"] = consumer(c)
+    # controls: conversions stacked on an integer, implicit promotions
+    for e in (AS(AS(V("i"), "int64"), "float64"), B("/", AS(V("i"), "float64"), L(2.0)), B("*", V("i"), L(0.5)), AS(B("/", AS(V("k"), "float64"), L(2.0)), "int32"), B("+", AS(V("k"), "int64"), V("i"))):
+        n += 1
+        exprs[f"c{n}"] = e
+    want = {}
+    for name, e in list(exprs.items()):
+        try:
+            v, isf = ev(e)
+        except (OverflowError, ZeroDivisionError):
+            del exprs[name]
+            continue
+        want[name] = float(v)
+    d = _pkg(sc, "conv", [("f", "double"), ("g", "double"), ("h", "float"), ("i", "int"), ("k", "int")], {nm: src(e)[1:-1] if src(e).startswith("(") and e[0] == "bin" else src(e) for nm, e in exprs.items()}, cpp=True)
+    rc, out, err = vlib.yardl(ybin, d, "generate")
+    if rc != 0:
+        report.violation("emission:model-rejected", {"error": err[-800:], "what": "conversions"}, "")
+        return
+    root = os.path.dirname(d)
+    script = ("import sys, json\nsys.path.insert(0, %r)\nimport cf\nr = cf.R(f=2.75, g=-7.5, h=100.5, i=5, k=-3)\nres = {}\n"
+              "for n in %r:\n    try:\n        res[n] = float(getattr(r, n)())\n    except Exception as e:\n        res[n] = 'EXC ' + type(e).__name__\n"
+              "print(json.dumps(res))\n") % (os.path.join(root, "py"), [vlib.to_snake(x) for x in exprs])
+    p = subprocess.run(["python3-vt", "-W", "ignore", "-c", script], stdout=subprocess.PIPE, stderr=subprocess.PIPE, timeout=120)
+    py = json.loads(p.stdout) if p.returncode == 0 else None
+    if py is None:
+        report.violation("emission:python-conversion-run-failed", {"stderr": p.stderr.decode()[-1200:]}, "")
+    from formatting_shim import to_pascal
+    main = ['#include <iostream>', '#include <iomanip>', '#include "types.h"', "int main() { cf::R r; r.f = 2.75; r.g = -7.5; r.h = 100.5f; r.i = 5; r.k = -3; std::cout << std::setprecision(17);"]
+    for nm in exprs:
+        main.append('  std::cout << "%s=" << static_cast<double>(r.%s()) << "\\n";' % (nm, to_pascal(nm)))
+    main.append("}")
+    cppdir = os.path.join(root, "cpp")
+    open(os.path.join(cppdir, "cf_main.cc"), "w").write("\n".join(main))
+    exe = os.path.join(root, "cfmain")
+    pc = vlib.run(["g++", "-std=c++17", "-O0", "-w", "-I", os.path.join(vlib.HARNESS, "cpp"), "-I", cppdir, os.path.join(cppdir, "cf_main.cc"),
+                   os.path.join(cppdir, "types.cc"), "-o", exe], timeout=600)
+    cpp = None
+    if pc.returncode == 0:
+        cpp = {}
+        for line in subprocess.run([exe], stdout=subprocess.PIPE, timeout=60).stdout.decode().splitlines():
+            k2, v2 = line.split("=")
+            cpp[k2] = float(v2)
+    else:
+        report.violation("emission:cpp-conversion-compile-failed", {"log": (getattr(pc, "stderr", b"") or b"").decode(errors="replace")[-1500:]}, "")
+    for nm, e in exprs.items():
+        for tgt, got in (("python", py.get(vlib.to_snake(nm)) if py is not None else None), ("cpp", cpp.get(nm) if cpp is not None else None)):
+            if (py if tgt == "python" else cpp) is None:
+                continue
+            report.case(distinct_key=("conversion", nm, tgt), sample={"source": src(e), "target": tgt, "expected": want[nm]} if nm == "c1" else None)
+            report.count(f"emission.conversion.{tgt}")
+            if got != want[nm]:
+                report.violation(f"emission:value-differs:{tgt}:conversions", {"source": src(e), "env": env, "reference": want[nm], "got": got},
+                                 f"generated {tgt} does not compute the documented value of an expression with explicit conversions")
+
+
+def _directed_semantics(report, sc, ybin):
+    """expressions whose meaning hinges on how a target language groups or dispatches them: a negated base of a power, !switch over a single type with a
+    type / discard / declaration pattern; reference = the source language's meaning (`-f ** 2` is `(-f) ** 2`: negation binds tighter than every binary operator)"""
+    cases = {"negSquare": ("-f ** 2.0", 7.5625), "negCube": ("-f ** 3.0", -20.796875), "negTimes": ("-f * 2.0", -5.5), "negPlus": ("-f + 1.0", -1.75), "negOfSum": ("-(f + 1.0) ** 2.0", 14.0625),
+             "squareOfNegInt": ("-i ** 2", 25.0), "minusNeg": ("1.0 - -f", 3.75)}
+    raw = {"swType": ("\n      !switch i:\n        int: 42", 42.0), "swDiscard": ("\n      !switch i:\n        _: 7", 7.0), "swDecl": ("\n      !switch i:\n        int x: x + 1", 6.0),
+           "swFloat": ("\n      !switch f:\n        double: f * 2.0", 5.5)}
+    d = sc.path("sem", "m")
+    os.makedirs(d, exist_ok=True)
+    man = ["namespace: Cf", "python:", "  outputDir: ../py", "matlab:", "  outputDir: ../matlab", "cpp:", "  sourcesOutputDir: ../cpp", "  generateCMakeLists: false", "  generateHDF5: false",
+           "  generateNDJson: false", "  overrideArrayHeader: vf_ndarray.h"]
+    open(os.path.join(d, "_package.yml"), "w").write("\n".join(man) + "\n")
+    lines = ["R: !record", "  fields:", "    f: double", "    i: int", "  computedFields:"]
+    lines += [f"    {n}: \"{e}\"" for n, (e, _) in cases.items()] + [f"    {n}: {e}" for n, (e, _) in raw.items()]
+    open(os.path.join(d, "model.yml"), "w").write("\n".join(lines) + "\n")
+    rc, out, err = vlib.yardl(ybin, d, "generate")
+    if rc != 0:
+        report.violation("emission:model-rejected", {"error": err[-800:], "what": "directed semantics"}, "")
+        return
+    root = os.path.dirname(d)
+    allc = {**cases, **raw}
+    script = ("import sys, json\nsys.path.insert(0, %r)\nimport cf\nr = cf.R(f=2.75, i=5)\nres = {}\n"
+              "for n in %r:\n    try:\n        res[n] = float(getattr(r, n)())\n    except Exception as e:\n        res[n] = 'EXC ' + type(e).__name__\n"
+              "print(json.dumps(res))\n") % (os.path.join(root, "py"), [vlib.to_snake(x) for x in allc])
+    p = subprocess.run(["python3-vt", "-W", "ignore", "-c", script], stdout=subprocess.PIPE, stderr=subprocess.PIPE, timeout=120)
+    py = json.loads(p.stdout) if p.returncode == 0 else {}
+    from formatting_shim import to_pascal
+    main = ['#include <iostream>', '#include <iomanip>', '#include "types.h"', "int main() { cf::R r; r.f = 2.75; r.i = 5; std::cout << std::setprecision(17);"]
+    for n in allc:
+        main.append('  std::cout << "%s=" << static_cast<double>(r.%s()) << "\\n";' % (n, to_pascal(n)))
+    main.append("}")
+    cppdir = os.path.join(root, "cpp")
+    open(os.path.join(cppdir, "cf_main.cc"), "w").write("\n".join(main))
+    exe = os.path.join(root, "cfmain")
+    pc = vlib.run(["g++", "-std=c++17", "-O0", "-w", "-I", os.path.join(vlib.HARNESS, "cpp"), "-I", cppdir, os.path.join(cppdir, "cf_main.cc"),
+                   os.path.join(cppdir, "types.cc"), "-o", exe], timeout=600)
+    cpp = {}
+    if pc.returncode == 0:
+        for line in subprocess.run([exe], stdout=subprocess.PIPE, timeout=60).stdout.decode().splitlines():
+            k2, v2 = line.split("=")
+            cpp[k2] = float(v2)
+    # MATLAB cannot be run here: the emitted text of a negated power must keep the negation together
+    mtext = open(os.path.join(root, "matlab", "+cf", "R.m")).read()
+    for n in ("negSquare", "negCube", "negOfSum"):
+        mm = re.search(r"function res = %s\(self\)\s*\n\s*res = (.*);" % re.escape(vlib.to_snake(n)), mtext)
+        report.case(distinct_key=("semantics", n, "matlab"))
+        if not mm or not re.match(r"^\(-\(.*\)\)\s*\.?\^", mm.group(1).strip()):
+            report.violation("emission:value-differs:matlab:negated-power", {"field": n, "source": cases[n][0], "emitted": mm.group(1) if mm else None},
+                             "MATLAB reads -(x) ^ y as -(x ^ y): the negated base must be parenthesised as a whole")
+    for n, (e, want) in allc.items():
+        for tgt, got in (("python", py.get(vlib.to_snake(n))), ("cpp", cpp.get(n))):
+            report.case(distinct_key=("semantics", n, tgt), sample={"source": e.strip(), "target": tgt, "expected": want} if n == "negSquare" else None)
+            report.count(f"emission.semantics.{tgt}")
+            if got != want:
+                report.violation(f"emission:value-differs:{tgt}:directed-semantics", {"field": n, "source": e.strip(), "env": {"f": 2.75, "i": 5}, "reference": want, "got": got},
+                                 f"generated {tgt} computes a different value")
 
 
 def _narrow_operands(report, sc, ybin):
